@@ -210,9 +210,10 @@ def directed_wide(thorough=False):
     out.append(c("tree", 0, 1, len=1, allow=15, allowChars=cjk(200)))               # classes + custom: 268 characters
     if thorough:
         # (65 836 characters were tried: TLC's set algebra over such an alphabet takes longer than the per-trace time limit)
-        wide = [0x20000 + i for i in range(1000)] + cjk(300)
-        out.append(c("tree", 0, 1, len=1, allowChars=wide))
-        out.append(c("paths", 5, 0, len=2, allowChars=wide, requireSets=[wide[-1:]]))
+        # (a 1300-character tree was also too slow under load: 0.75 s of TLC time per leaf)
+        wide = [0x20000 + i for i in range(212)] + cjk(300)
+        out.append(c("tree", 0, 1, len=1, allowChars=wide))          # 512 characters: a 9-bit index
+        out.append(c("paths", 5, 0, len=2, allowChars=wide + [0x30000 + i for i in range(600)], requireSets=[wide[-1:]]))
     # k required sets, all but one of them satisfied by the first character of the alphabet: the all-first-index stream
     # must exhaust the attempts (error), the others must return a password that meets all k sets
     # (the library's count walks all 2^k subsets of the required sets twice per Generate: a 17-set cell costs about 3 s per call)
